@@ -55,6 +55,20 @@ def wellformed_problem(fields):
     return None
 
 
+def run_default_output(gaf, tsv):
+    """`gaftools phase GAF TSV` without -o (documented: output goes to standard output); a real process, because the default
+    is bound to sys.stdout when the module is imported"""
+    import subprocess
+    import sys
+    import gaftools
+    env = dict(os.environ)
+    env["PYTHONPATH"] = os.path.dirname(os.path.dirname(os.path.abspath(gaftools.__file__)))
+    p = subprocess.run([sys.executable, "-m", "gaftools", "phase", gaf, tsv], capture_output=True, text=True, timeout=120, env=env)
+    if p.returncode != 0:
+        raise RuntimeError("`gaftools phase GAF TSV` (no -o) exited with status %d: %s" % (p.returncode, (p.stderr.strip().splitlines() or [""])[-1]))
+    return p.stdout
+
+
 def drive(d, case):
     """-> list of (index, problem or None), one per input record"""
     gaf = os.path.join(d, "in.gaf" + (".gz" if case.get("bgzf") else ""))
@@ -65,7 +79,7 @@ def drive(d, case):
     write_lines(gaf, case["gaf"], bgzf=bool(case.get("bgzf")))
     with open(tsv, "w") as f:
         f.write("".join(l + "\n" for l in case["tsv"]))
-    got = T.lines_of(T.real_phase(gaf, tsv, out))
+    got = T.lines_of(run_default_output(gaf, tsv) if case.get("kind") == "stdout" else T.real_phase(gaf, tsv, out))
     exp = oracle(case["gaf"], case["tsv"])
     if len(got) != len(exp):
         return [(-1, "%d records in, %d lines out (%r ...)" % (len(exp), len(got), got[:2]))]
@@ -191,6 +205,9 @@ def run(ctx):
     evaluate(ctx, "one-file", {"gaf": gaf, "tsv": tsv}, d)
     evaluate(ctx, "one-file", {"gaf": gaf, "tsv": tsv, "bgzf": True}, d)
     evaluate(ctx, "one-file", {"gaf": [], "tsv": tsv}, d)
+    # the documented default destination: no -o -> standard output (one real process)
+    ctx.bound("default-output: one run of `python -m gaftools phase GAF TSV` without -o on 6 records; standard output must hold the same records")
+    evaluate(ctx, "default-output", {"kind": "stdout", "gaf": gaf[:6], "tsv": tsv[:12]}, d)
     n_files = 400 if q else 8000
     ctx.bound("random: %d files of 0-40 records (several alignments per read, unlisted reads, names with blanks, 0-6 random optional fields "
               "over the whole tag grammar, cg:Z anywhere or absent, ds:Z), TSV with 0-2 entries per read in file or shuffled order, optional "
